@@ -149,12 +149,22 @@ func c10Diff(p *grParsed, got, want []string) string {
 
 var c10V2Versions = []string{"2", "3", "4", "5", "6", "7", "8", "9", "10", "11", "org.matrix.msc3667", "org.matrix.msc3787"}
 
-func c10GenV1(t *rapid.T) grCase { return grGenCase(t, "1", 8, 30) }
+// c10Size: now and then a long history (more than 64 / 128 events to order, more than 64 conflicted)
+func c10Size(t *rapid.T, max int) (int, int) {
+	if rapid.IntRange(0, 29).Draw(t, "longHistory") == 0 {
+		return 70, 150
+	}
+	return 8, max
+}
+
+func c10GenV1(t *rapid.T) grCase { lo, hi := c10Size(t, 30); return grGenCase(t, "1", lo, hi) }
 func c10GenV2(t *rapid.T) grCase {
-	return grGenCase(t, rapid.SampledFrom(c10V2Versions).Draw(t, "version"), 8, 36)
+	lo, hi := c10Size(t, 36)
+	return grGenCase(t, rapid.SampledFrom(c10V2Versions).Draw(t, "version"), lo, hi)
 }
 func c10GenV21(t *rapid.T) grCase {
-	return grGenCase(t, rapid.SampledFrom([]string{"12", "org.matrix.hydra.11"}).Draw(t, "version"), 8, 36)
+	lo, hi := c10Size(t, 36)
+	return grGenCase(t, rapid.SampledFrom([]string{"12", "org.matrix.hydra.11"}).Draw(t, "version"), lo, hi)
 }
 
 func init() {
